@@ -1,4 +1,4 @@
-// PROBE (design round, not framework): appended to src/sync/rwlock.rs of a scratch copy of /repo
+// PROBE (design round): appended to src/sync/rwlock.rs of a scratch copy; F3 (2 s) and F4 (5.6 s)
 #[cfg(kani)]
 mod verif_h {
     use super::*;
@@ -46,6 +46,64 @@ mod verif_h {
             Ok(g) => std::mem::forget(g),
             Err(TryLockError::Poisoned(e)) => std::mem::forget(e),
         }
+        std::mem::forget(l);
+    }
+
+    // ---- F4 probe: two try_write on a poisoned lock, B's whole call inside A's window ----
+    use std::sync::atomic::AtomicUsize as SU;
+    static mut DEPTH: usize = 0;
+    static mut B_DONE: bool = false;
+    static mut B_HOLDS: bool = false;
+    static mut L: *const RwLock<u8> = std::ptr::null();
+    fn run_b() {
+        unsafe {
+            B_DONE = true; DEPTH += 1;
+            match (*L).try_write() {
+                Ok(g) => { B_HOLDS = true; std::mem::forget(g); }
+                Err(TryLockError::Poisoned(e)) => { B_HOLDS = true; std::mem::forget(e); }
+                Err(TryLockError::WouldBlock) => {}
+            }
+            DEPTH -= 1;
+        }
+    }
+    fn hook() { unsafe { if DEPTH == 0 && !L.is_null() && !B_DONE && kani::any() { run_b(); } } }
+    fn us_load(a: &SU, _o: Ordering) -> usize { hook(); unsafe { *a.as_ptr() } }
+    fn us_cas(a: &SU, cur: usize, new: usize, _s: Ordering, _f: Ordering) -> Result<usize, usize> {
+        hook(); unsafe { let p = a.as_ptr(); let old = *p; if old == cur { *p = new; Ok(old) } else { Err(old) } }
+    }
+
+    #[kani::proof]
+    #[kani::unwind(4)]
+    #[kani::stub(core::sync::atomic::Atomic::<usize>::load, us_load)]
+    #[kani::stub(core::sync::atomic::Atomic::<usize>::compare_exchange, us_cas)]
+    #[kani::stub(stdpanic::catch_unwind, catch_unwind_stub)]
+    #[kani::stub(stdpanic::take_hook, take_hook_stub)]
+    #[kani::stub(stdpanic::set_hook, set_hook_stub)]
+    #[kani::stub(crate::sync::blocking::Blocker::park, park_model)]
+    #[kani::stub(crate::sync::blocking::Blocker::unpark, unpark_model)]
+    #[kani::stub(std::thread::panicking, panicking_stub)]
+    #[kani::stub(crate::coroutine_impl::is_coroutine, is_coroutine_stub)]
+    #[kani::stub(std::sync::Arc::drop_slow, arc_drop_slow_stub)]
+    fn rwlock_poisoned_two_try_write() {
+        let l = RwLock::new(0u8);
+        let poisoned: bool = kani::any();
+        kani::assume(!poisoned);
+        if poisoned {
+            let g = l.write().unwrap();
+            unsafe { PANICKING = true; }
+            drop(g);
+            unsafe { PANICKING = false; }
+        }
+        unsafe { L = &l; }
+        let a_holds = match l.try_write() {
+            Ok(g) => { std::mem::forget(g); true }
+            Err(TryLockError::Poisoned(e)) => { std::mem::forget(e); true }
+            Err(TryLockError::WouldBlock) => false,
+        };
+        unsafe { if !B_DONE { run_b(); } }
+        kani::cover!(poisoned && a_holds);
+        kani::cover!(unsafe { B_HOLDS } && !a_holds);
+        assert!(!(a_holds && unsafe { B_HOLDS }), "two write guards handed out at once");
         std::mem::forget(l);
     }
 }
